@@ -325,7 +325,9 @@ def native_average(ns):
         for lead in ((2,), (2, 3)):
             npm = 6
             X = rnd.normal(size=lead + (nq, npm))
-            w = rnd.uniform(0.5, 4.0, size=nq)
+            w = rnd.uniform(0.5, 4.0, size=nq) * (1e-7 if len(lead) == 2 else 1.0)          # only ratios of weights are physical
+            if nq >= 3:
+                w[nq // 2] = 0.0          # a q-point listed with weight 0 in the middle of the list
             X0 = X.copy()
             got = numpy.asarray(ns.average_over_modes(X, w))
             n += 1
